@@ -3,7 +3,8 @@ from contracts import loads
 from props.common import *  # noqa: F401,F403
 
 L = "ghedesigner.ground_loads"
-FUNCTIONS = [f"{L}:monthdays", f"{L}:first_month_hour", f"{L}:last_month_hour", f"{L}:HybridLoad.process_month_loads"]
+FUNCTIONS = [f"{L}:monthdays", f"{L}:first_month_hour", f"{L}:last_month_hour", f"{L}:HybridLoad.split_heat_and_cool", f"{L}:HybridLoad.split_loads_by_month",
+             f"{L}:HybridLoad.process_month_loads"]
 NATIVE_FUNCTIONS = [f"{L}:last_month_hour", f"{L}:HybridLoad.process_month_loads"]
 NATIVE_CASES = {"quick": 400, "thorough": 20000}
 LEVEL = "proof"
